@@ -11,7 +11,9 @@ PLAN = {
     'C04': ('catsim', 4000, 100000),
     'C05': ('rngsim', 3000, 80000),
     'C06': ('rngsim', 3000, 80000),
+    'C14': ('persistsim', 3000, 80000),
     'C16': ('rngsim', 3000, 80000),
+    'C18': ('persistsim', 1500, 40000),
 }
 
 
